@@ -28,6 +28,18 @@ CHECKS = {
    "Runtime monitor over simulator executions with the real cluster.State and syncer attached to every node: after every step table==f(gossip view), caught-up => table==owner's endpoints/addresses, and LookupEndpoint validity/completeness for every endpoint id.",
    "Sequential scheduler; F3-tainted pairs are classified from datagram provenance and reported as KNOWN-FINDING; half the runs have no expiry so no taint is possible there.",
    "runtime monitoring: per-step mirror oracle (routing table vs gossip view vs owner truth) over simulated histories", "4/C04"),
+ "C05": (E4, "exploration",
+   "Runtime monitor with the race detector: the real manager + cluster.State + syncer + gossip state are driven by seeded sequential histories (incl. repeated/late/never-added removals) and by concurrent workers plus proxy-style removers with injected publication delays; the three published views must equal the reference count after every operation / at every barrier.",
+   "Upstream objects registered at most once; publication observed on the node's own gossip state; concurrency explored by repetition and injected delays, not enumerated.",
+   "runtime monitoring: reference-count oracle at quiescent points + Go race detector over concurrent histories with injected delays", "4/C05"),
+ "C15": (E4, "exploration",
+   "Runtime monitor: sequential histories of add/remove/select on the real LoadBalancedManager judged against a reference set with permutation-window fairness and starvation bounds; concurrent histories recorded at the call boundary and checked with porcupine against a set model partitioned by endpoint, under the race detector.",
+   "Round-robin order is judged sequentially only; porcupine timeouts are inconclusive.",
+   "runtime monitoring: reference-model oracle + porcupine linearizability check of recorded concurrent histories + race detector", "4/C15"),
+ "C19": (E4, "exploration",
+   "Runtime monitor on the real upstream.Server.Rebalance() with real WebSocket+yamux sessions and injected routing views: per case the number of sessions closed by one call is read from the server and cross-checked with the clients, and judged against exact-rational reference bounds. The parameter grid is enumerated completely; further seeded cases use up to 300 sessions.",
+   "Safety only (no lower bound); rebalance configuration swapped through a verif-tagged setter; quiescence (no closed-but-registered session) established before each call.",
+   "runtime monitoring: reference-bound oracle over an enumerated configuration grid with real sessions", "4/C19"),
  "C11": (E1, "exploration",
    "Runtime monitor over seeded simulator executions of the real membership code with a logical clock: per-step flag rules on every survivor (local node never flagged/removed, left only if the owner left, left never revived, flagged nodes scheduled for removal and outside the live set, routing status follows flags, no discovery from a digest marking the node left, sweeps remove exactly what is due) plus bounded crash/leave closures (forgotten by all within expiry + (N+3) detection periods, stays forgotten for two more expiry periods).",
    "Failure detector replaced by a logical-clock implementation of the same interface (the real one is C12's subject); sequential scheduler; liveness restated as a bound.",
